@@ -338,6 +338,16 @@ class IndexVals:
             raise Undecided("iteration over an index of unknown labels")
         return iter(list(self.labels))
 
+    def get_indexer(self, other, *a, **k):
+        """positions of other's labels in this index, -1 where absent"""
+        if self.labels is None or not isinstance(other, IndexVals) or other.labels is None or a or k:
+            raise Undecided("get_indexer on an index of unknown labels")
+        if len(set(self.labels)) != len(self.labels):
+            raise Raised("pandas.errors.InvalidIndexError", "Reindexing only valid with uniquely valued Index objects")
+        r = Vec([self.labels.index(l) if l in self.labels else -1 for l in other.labels])
+        r.exact = True
+        return r
+
     def duplicated(self, *a, **k):
         if self.labels is None or a or k:
             raise Undecided("duplicated() of an index of unknown labels")
@@ -573,6 +583,10 @@ def load_subscript(it, obj, k):
                 return _maskload(d.cols[col], rows)
             if isinstance(rows, int) and isinstance(col, str):
                 return d.cols[col].v[rows]
+        if obj.name == "iloc" and isinstance(k, Vec) and k.exact and d.exact and k.v and all(isinstance(i, int) and not isinstance(i, bool) for i in k.v):
+            if any(not -d.n <= i < d.n for i in k.v):
+                raise Raised("IndexError", "positional indexers are out-of-bounds")
+            k = [i % d.n for i in k.v]                       # positional take; negative positions count from the end
         if isinstance(k, Vec):
             return df_select(d, k)
         if obj.name == "loc" and isinstance(k, slice) and d.exact and d.labels is not None and k.step is None and \
